@@ -3,7 +3,7 @@ from vlib import *
 import gen_ex
 from props import exlib
 
-PROP = "C15"; MODULES = ["NeatviVerif.Props.C15"]; MODE = "ex15"
+PROP = "C15"; MODULES = ["NeatviVerif.Props.C15", "NeatviVerif.Props.C15b"]; MODE = "ex15"
 
 def streams(probe, tier, seed, wide):
     rng = Rng(seed)
